@@ -137,3 +137,691 @@ Qed.
 Inductive reach (n : nat) : st -> Prop :=
 | reach0 : reach n (init n)
 | reachS s l s' : reach n s -> mstep s l = Some s' -> reach n s'.
+
+(* ------------------------------------------------------------------ invariants *)
+(* a closer at K ip sub has executed close(f.done) *)
+Definition past (f : fid) (ip sub : nat) : bool :=
+  match f with
+  | FR => (Nat.eqb ip 0 && Nat.leb 2 sub) || Nat.leb 1 ip
+  | FW => (Nat.eqb ip 1 && Nat.leb 2 sub) || Nat.leb 2 ip
+  end.
+Definition holds_mu (f : fid) (p : tpc) : bool :=
+  match p with
+  | K ip sub => (match f with FR => Nat.eqb ip 0 | FW => Nat.eqb ip 1 end) && (Nat.eqb sub 1 || Nat.eqb sub 2)
+  | _ => false end.
+Definition wfK (p : tpc) : Prop :=
+  match p with K ip sub => ip <= 4 /\ sub <= 3 /\ (2 <= ip -> sub = 0) | _ => True end.
+Definition owner (w : wpc) : option nat :=
+  match w with WC o _ | WS o _ | W1 o _ | W1W o _ => Some o | _ => None end.
+
+Definition prov (F : fstate) : Prop :=
+  (forall j r, In (j, r) (delivered F) -> exists b, In (j, b, r) (produced F)) /\
+  (forall o b r, In (o, b, r) (produced F) -> In (o, b) (sent F) /\ In b (sourced F)) /\
+  match wk F with
+  | WC o b => In (o, b) (sent F)
+  | WS o b => In (o, b) (sent F) /\ In b (sourced F)
+  | W1 o r | W1W o r => exists b, In (o, b, r) (produced F)
+  | _ => True end.
+
+Record Inv (s : st) : Prop := {
+  i_wf : forall p, In p (thr s) -> wfK p;
+  i_flag : forall f, done (getf s f) = fclosed (getf s f);
+  i_nopark : forall f, done (getf s f) = true ->
+       (forall p, In p (thr s) -> parked1 f p = false /\ parked2 f p = false) /\ is_parked_w (wk (getf s f)) = false;
+  i_sclosed : forall f, sclosed (getf s f) = true -> done (getf s f) = true;
+  i_past : forall f ip sub, In (K ip sub) (thr s) -> past f ip sub = true -> done (getf s f) = true;
+  i_mut : forall f, count (holds_mu f) (thr s) = b2n (mu (getf s f));
+  i_w1 : forall f o r, wk (getf s f) = W1 o r -> r <> REof /\ (r = RClosed -> done (getf s f) = true);
+  i_w1w : forall f o r, wk (getf s f) = W1W o r -> r <> RClosed /\ r <> REof;
+  i_retc : forall f r, In (DRet f r) (thr s) -> r <> RClosed;
+  i_deliv : forall f j r, In (j, r) (delivered (getf s f)) -> r <> RClosed /\ r <> REof;
+  i_flight : forall f j, (nth_error (thr s) j = Some (D2 f) \/ nth_error (thr s) j = Some (D2W f)) ->
+             done (getf s f) = true \/ owner (wk (getf s f)) = Some j;
+  i_order : forall f, map snd (sent (getf s f)) = pending_buf (wk (getf s f)) ++ sourced (getf s f);
+  i_prov : forall f, prov (getf s f) }.
+
+Lemma init_inv n : Inv (init n).
+Proof.
+  constructor; simpl.
+  - intros p H. apply repeat_spec in H. now subst.
+  - intros []; reflexivity.
+  - intros []; discriminate.
+  - intros []; discriminate.
+  - intros f ip sub H. apply repeat_spec in H. discriminate.
+  - intros f. assert (E : forall m, count (holds_mu f) (repeat Idle m) = 0) by (induction m; simpl; auto).
+    rewrite E. destruct f; reflexivity.
+  - intros []; discriminate.
+  - intros []; discriminate.
+  - intros f r H. apply repeat_spec in H. discriminate.
+  - intros [] j r [].
+  - intros f j [H|H]; apply nth_In, repeat_spec in H; discriminate.
+  - intros []; reflexivity.
+  - intros []; repeat split; simpl; try tauto; intros; contradiction.
+Qed.
+
+Lemma wake_done_K f p ip sub : wake_done f p = K ip sub -> p = K ip sub.
+Proof. destruct p; simpl; try congruence; destruct (fid_eqb f f0); congruence. Qed.
+
+Lemma In_map_wake f y l : In y (map (wake_done f) l) -> exists p, In p l /\ y = wake_done f p.
+Proof. intros H. apply in_map_iff in H as (p & E & Hp). eauto. Qed.
+
+Lemma nth_map_wake f l i a : nth_error l i = Some a -> nth_error (map (wake_done f) l) i = Some (wake_done f a).
+Proof. apply map_nth_error. Qed.
+
+Ltac inv_in Hp :=
+  match type of Hp with
+  | In _ (upd ?j _ (map (wake_done _) (thr ?s))) =>
+      match goal with H : nth_error (thr s) j = Some _ |- _ =>
+      let E := fresh "E" in let k := fresh "k" in let Hn := fresh "Hn" in
+      destruct (In_upd_nth _ _ _ _ _ (nth_map_wake _ _ _ _ H) Hp) as [E|(k & _ & Hn)];
+      [|apply nth_In in Hn; apply In_map_wake in Hn as (?p & Hn & ?E)] end
+  | In _ (upd ?j _ (thr ?s)) =>
+      match goal with H : nth_error (thr s) j = Some _ |- _ =>
+      let E := fresh "E" in let k := fresh "k" in let Hn := fresh "Hn" in
+      destruct (In_upd_nth _ _ _ _ _ H Hp) as [E|(k & _ & Hn)]; [|apply nth_In in Hn] end
+  end.
+
+Lemma kf_inv ip f : kf ip = Some f -> (ip = 0 /\ f = FR) \/ (ip = 1 /\ f = FW).
+Proof. destruct ip as [|[|ip]]; simpl; intros H; inversion H; auto. Qed.
+Lemma ks_inv ip f : ks ip = Some f -> (ip = 2 /\ f = FR) \/ (ip = 3 /\ f = FW).
+Proof. destruct ip as [|[|[|[|ip]]]]; simpl; intros H; inversion H; auto. Qed.
+
+Ltac kinv := repeat match goal with
+  | H : kf _ = Some _ |- _ => apply kf_inv in H as [[-> ->]|[-> ->]]
+  | H : ks _ = Some _ |- _ => apply ks_inv in H as [[-> ->]|[-> ->]] end.
+
+Lemma wfK_wake f p : wfK p -> wfK (wake_done f p).
+Proof. destruct p; simpl; auto; destruct (fid_eqb f f0); simpl; auto. Qed.
+
+Lemma wf_pres s l s' : Inv s -> Step s l s' -> forall p, In p (thr s') -> wfK p.
+Proof.
+  intros I H; destruct H; kinv; try (destruct f); simpl; intros p Hp;
+    try match goal with H : nth_error (thr s) _ = Some _ |- _ =>
+          pose proof (i_wf _ I _ (nth_In _ _ _ H)) as Hold; simpl in Hold end.
+  all: try (inv_in Hp; [subst; simpl; auto; try lia | try (apply (i_wf _ I _ Hn))]).
+  all: try (apply (i_wf _ I _ Hp)).
+  all: try (subst p; apply wfK_wake, (i_wf _ I _ Hn)).
+Qed.
+
+Lemma flag_pres s l s' : Inv s -> Step s l s' -> forall f, done (getf s' f) = fclosed (getf s' f).
+Proof.
+  intros I H f'. pose proof (i_flag _ I FR) as FlR. pose proof (i_flag _ I FW) as FlW.
+  destruct H; kinv; try (destruct f); destruct f'; simpl in *; auto; congruence.
+Qed.
+
+Lemma sclosed_pres s l s' : Inv s -> Step s l s' -> forall f, sclosed (getf s' f) = true -> done (getf s' f) = true.
+Proof.
+  intros I H f'. pose proof (i_sclosed _ I FR) as ScR. pose proof (i_sclosed _ I FW) as ScW.
+  destruct H; kinv; try (destruct f); destruct f'; simpl in *; auto.
+  - intros _. apply (i_past _ I FR 2 sub (nth_In _ _ _ H)). reflexivity.
+  - intros _. apply (i_past _ I FW 3 sub (nth_In _ _ _ H)). reflexivity.
+Qed.
+
+Lemma done_mono s l s' f : Step s l s' -> done (getf s f) = true -> done (getf s' f) = true.
+Proof. intros H; destruct H; kinv; try (destruct f0); destruct f; simpl; auto. Qed.
+
+Lemma past_pres s l s' : Inv s -> Step s l s' ->
+  forall f ip sub, In (K ip sub) (thr s') -> past f ip sub = true -> done (getf s' f) = true.
+Proof.
+  intros I H f' ip' sub' Hp Hpast. pose proof (i_past _ I f') as P. pose proof (done_mono _ _ _ f' H) as M.
+  pose proof (i_flag _ I f') as Fl.
+  destruct H; kinv; try (destruct f); simpl in Hp.
+  all: try (inv_in Hp; [try discriminate; try (injection E as -> ->) | ]).
+  all: try (subst; match goal with E : K _ _ = wake_done _ _ |- _ => symmetry in E; apply wake_done_K in E; subst end).
+  all: try (apply M; eapply P; eauto; fail).
+  all: try match goal with H : nth_error (thr _) _ = Some (K _ _) |- _ => apply nth_In in H end.
+  all: try (apply M; eapply P; [eassumption|]; destruct f'; simpl in *; auto; fail).
+  - destruct f'; discriminate.
+  - destruct f'; simpl in *; [congruence|]. discriminate.
+  - destruct f'; simpl in *; [|congruence]. eapply P; eauto.
+  - destruct f'; simpl in *; [reflexivity|discriminate].
+  - destruct f'; simpl in *; [|reflexivity]. eapply P; eauto.
+  - destruct f'; simpl in *; [|discriminate]. eapply P; [eassumption|]. simpl.
+    destruct sub as [|[|sub]]; try lia; reflexivity.
+  - destruct f'; simpl in *; eapply P; try eassumption; simpl; auto.
+    destruct sub as [|[|sub]]; try lia; reflexivity.
+Qed.
+
+Lemma b2n_le1 b : b2n b <= 1.
+Proof. destruct b; simpl; lia. Qed.
+
+Lemma holds_mu_wake f g p : holds_mu f (wake_done g p) = holds_mu f p.
+Proof. destruct p; simpl; auto; destruct (fid_eqb g f0); reflexivity. Qed.
+
+Lemma mut_pres s l s' : Inv s -> Step s l s' -> forall f, count (holds_mu f) (thr s') = b2n (mu (getf s' f)).
+Proof.
+  intros I H f'. pose proof (i_mut _ I f') as M. pose proof (b2n_le1 (mu (getf s f'))) as B.
+  destruct H; kinv; try (destruct f); simpl.
+  all: try match goal with
+       | H : nth_error (thr ?s) ?i = Some _ |- context[count _ (upd ?i ?x (map (wake_done ?g) (thr ?s)))] =>
+           pose proof (count_upd (holds_mu f') i x _ _ (nth_map_wake g _ _ _ H)) as C;
+           rewrite (count_map_ext (holds_mu f') (wake_done g)) in C by (intros; apply holds_mu_wake); simpl in C
+       | H : nth_error (thr ?s) ?i = Some _ |- context[count _ (upd ?i ?x (thr ?s))] =>
+           pose proof (count_upd (holds_mu f') i x _ _ H) as C; simpl in C
+       end.
+  all: destruct f'; simpl in *; try lia.
+  all: try (rewrite ?H1, ?H2 in *; simpl in *; lia).
+  all: destruct sub as [|[|[|sub]]]; try lia; simpl in C; lia.
+Qed.
+
+(* nobody stays parked on a closed done *)
+Lemma parked_wake_same f p : parked1 f (wake_done f p) = false /\ parked2 f (wake_done f p) = false.
+Proof. destruct p; simpl; auto; destruct (fid_eqb f f0) eqn:E; simpl; auto; rewrite E; auto. Qed.
+Lemma parked_wake_other f g p : parked1 f p = false /\ parked2 f p = false ->
+  parked1 f (wake_done g p) = false /\ parked2 f (wake_done g p) = false.
+Proof. destruct p; simpl; auto; destruct (fid_eqb g f0); simpl; auto. Qed.
+
+Lemma nopark_pres s l s' : Inv s -> Step s l s' -> forall f, done (getf s' f) = true ->
+  (forall p, In p (thr s') -> parked1 f p = false /\ parked2 f p = false) /\ is_parked_w (wk (getf s' f)) = false.
+Proof.
+  intros I H f' D. pose proof (i_nopark _ I f') as N.
+  destruct H; kinv; try (destruct f); destruct f'; simpl in *.
+  all: try congruence.
+  all: try (destruct (N D) as [N1 N2]; split;
+            [intros p Hp; try (inv_in Hp; [subst; simpl; auto|]); try (apply N1; assumption) | try assumption;
+             try (rewrite ?H, ?H0, ?H1 in N2; simpl in N2; simpl; congruence)]; fail).
+  - split; [|destruct (wk (fr s)); reflexivity].
+    intros p Hp. inv_in Hp; [subst; simpl; auto|]. subst. apply parked_wake_same.
+  - destruct (N D) as [N1 N2]. split; [|assumption].
+    intros p Hp. inv_in Hp; [subst; simpl; auto|]. subst. apply parked_wake_other. auto.
+  - destruct (N D) as [N1 N2]. split; [|assumption].
+    intros p Hp. inv_in Hp; [subst; simpl; auto|]. subst. apply parked_wake_other. auto.
+  - split; [|destruct (wk (fw s)); reflexivity].
+    intros p Hp. inv_in Hp; [subst; simpl; auto|]. subst. apply parked_wake_same.
+Qed.
+
+Lemma w1_pres s l s' : Inv s -> Step s l s' ->
+  forall f o r, wk (getf s' f) = W1 o r -> r <> REof /\ (r = RClosed -> done (getf s' f) = true).
+Proof.
+  intros I H f' o' r' W. pose proof (i_w1 _ I f' o' r') as P. pose proof (done_mono _ _ _ f' H) as M.
+  pose proof (i_sclosed _ I f') as Sc.
+  destruct H; kinv; try (destruct f); destruct f'; simpl in *; try discriminate.
+  all: try (destruct (P W) as [P1 P2]; split; auto; fail).
+  - destruct (wk (fr s)) eqn:E; simpl in W; try discriminate. destruct (P W). split; auto.
+  - destruct (wk (fw s)) eqn:E; simpl in W; try discriminate. destruct (P W). split; auto.
+  - injection W as <- <-. split; auto.
+  - injection W as <- <-. split; auto.
+Qed.
+
+Lemma w1w_pres s l s' : Inv s -> Step s l s' ->
+  forall f o r, wk (getf s' f) = W1W o r -> r <> RClosed /\ r <> REof.
+Proof.
+  intros I H f' o' r' W. pose proof (i_w1w _ I f' o' r') as P.
+  destruct H; kinv; try (destruct f); destruct f'; simpl in *; try discriminate; auto.
+  - destruct (wk (fr s)); simpl in W; discriminate.
+  - destruct (wk (fw s)); simpl in W; discriminate.
+  - injection W as <- <-. destruct (i_w1 _ I FR _ _ H0) as [A B]. split; auto.
+    intros ->. specialize (B eq_refl). simpl in B. congruence.
+  - injection W as <- <-. destruct (i_w1 _ I FW _ _ H0) as [A B]. split; auto.
+    intros ->. specialize (B eq_refl). simpl in B. congruence.
+Qed.
+
+Lemma wake_done_DRet g p f r : wake_done g p = DRet f r -> p = DRet f r \/ r = REof.
+Proof. destruct p; simpl; try congruence; try (left; congruence); destruct (fid_eqb g f0); intros H; inversion H; auto. Qed.
+
+Lemma retc_pres s l s' : Inv s -> Step s l s' -> forall f r, In (DRet f r) (thr s') -> r <> RClosed.
+Proof.
+  intros I H f' r' Hp. pose proof (i_retc _ I f' r') as P.
+  destruct H; kinv; try (destruct f); simpl in Hp.
+  all: try (inv_in Hp; [try discriminate; try (injection E as E1 E2; subst; try discriminate) | try (apply P; assumption)]).
+  all: try (apply P; assumption).
+  - apply (i_w1w _ I FR _ _ H0).
+  - apply (i_w1w _ I FW _ _ H0).
+  - symmetry in E. apply wake_done_DRet in E as [->| ->]; [apply (i_retc _ I _ _ Hn)|discriminate].
+  - symmetry in E. apply wake_done_DRet in E as [->| ->]; [apply (i_retc _ I _ _ Hn)|discriminate].
+  - destruct (i_w1 _ I FR _ _ H) as [A B]. intros ->. specialize (B eq_refl).
+    destruct (i_nopark _ I FR B) as [N1 _]. destruct (N1 _ (nth_In _ _ _ H0)) as [_ N2]. discriminate.
+  - destruct (i_w1 _ I FW _ _ H) as [A B]. intros ->. specialize (B eq_refl).
+    destruct (i_nopark _ I FW B) as [N1 _]. destruct (N1 _ (nth_In _ _ _ H0)) as [_ N2]. discriminate.
+Qed.
+
+Lemma deliv_pres s l s' : Inv s -> Step s l s' ->
+  forall f j r, In (j, r) (delivered (getf s' f)) -> r <> RClosed /\ r <> REof.
+Proof.
+  intros I H f' j' r' Hd. pose proof (i_deliv _ I f' j' r') as P.
+  destruct H; kinv; try (destruct f); destruct f'; simpl in *; auto.
+  all: destruct Hd as [E|Hd]; auto; injection E as <- <-.
+  - apply (i_w1w _ I FR _ _ H0).
+  - apply (i_w1w _ I FW _ _ H0).
+  - destruct (i_w1 _ I FR _ _ H) as [A B]. split; auto. intros ->. specialize (B eq_refl).
+    destruct (i_nopark _ I FR B) as [N1 _]. destruct (N1 _ (nth_In _ _ _ H0)) as [_ N2]. discriminate.
+  - destruct (i_w1 _ I FW _ _ H) as [A B]. split; auto. intros ->. specialize (B eq_refl).
+    destruct (i_nopark _ I FW B) as [N1 _]. destruct (N1 _ (nth_In _ _ _ H0)) as [_ N2]. discriminate.
+Qed.
+
+Lemma order_pres s l s' : Inv s -> Step s l s' ->
+  forall f, map snd (sent (getf s' f)) = pending_buf (wk (getf s' f)) ++ sourced (getf s' f).
+Proof.
+  intros I H f'. pose proof (i_order _ I f') as P.
+  destruct H; kinv; try (destruct f); destruct f'; simpl in *; auto.
+  all: try (rewrite ?H, ?H0, ?H1 in P; simpl in P; rewrite P; reflexivity).
+  - rewrite P. destruct (wk (fr s)); reflexivity.
+  - rewrite P. destruct (wk (fw s)); reflexivity.
+Qed.
+
+Lemma owner_wake w : owner (wake_w w) = owner w \/ owner (wake_w w) = None.
+Proof. destruct w; simpl; auto. Qed.
+
+Lemma nth_upd_cases {A} i j (x y a : A) l : nth_error l i = Some a -> nth_error (upd i x l) j = Some y ->
+  (j = i /\ y = x) \/ (j <> i /\ nth_error l j = Some y).
+Proof.
+  intros Hi Hj. destruct (Nat.eq_dec i j) as [->|Hne].
+  - rewrite (nth_upd_same _ _ _ _ Hi) in Hj. left; split; congruence.
+  - rewrite nth_upd_other in Hj by auto. right; split; auto.
+Qed.
+
+Lemma wake_done_D2 g p f : (wake_done g p = D2 f -> p = D2 f) /\ (wake_done g p = D2W f -> p = D2W f).
+Proof. destruct p; simpl; split; try congruence; destruct (fid_eqb g f0); congruence. Qed.
+
+(* position j of the new thread list holds D2 f / D2W f: it is the moved thread, or it held it before *)
+Ltac flight_split Hj :=
+  match type of Hj with
+  | nth_error (upd ?i ?x (map (wake_done ?g) (thr ?s))) ?j = Some ?y \/ nth_error (upd ?i ?x (map (wake_done ?g) (thr ?s))) ?j = Some ?z =>
+      match goal with H : nth_error (thr s) i = Some _ |- _ =>
+        destruct Hj as [Hj|Hj];
+        destruct (nth_upd_cases _ _ _ _ _ _ (nth_map_wake g _ _ _ H) Hj) as [[-> Hj']|[Hne Hj']] end
+  | nth_error (upd ?i ?x (thr ?s)) ?j = Some ?y \/ nth_error (upd ?i ?x (thr ?s)) ?j = Some ?z =>
+      match goal with H : nth_error (thr s) i = Some _ |- _ =>
+        destruct Hj as [Hj|Hj];
+        destruct (nth_upd_cases _ _ _ _ _ _ H Hj) as [[-> Hj']|[Hne Hj']] end
+  end.
+
+Lemma nth_map_inv {A B} (w : A -> B) l j y : nth_error (map w l) j = Some y -> exists p, nth_error l j = Some p /\ w p = y.
+Proof. revert j; induction l as [|a l IH]; intros [|j] H; simpl in *; try discriminate; eauto. injection H as <-. eauto. Qed.
+
+Lemma flight_pres s l s' : Inv s -> Step s l s' ->
+  forall f j, (nth_error (thr s') j = Some (D2 f) \/ nth_error (thr s') j = Some (D2W f)) ->
+  done (getf s' f) = true \/ owner (wk (getf s' f)) = Some j.
+Proof.
+  intros I H f' j' Hj. pose proof (i_flight _ I f' j') as P. pose proof (done_mono _ _ _ f' H) as M.
+  destruct H; kinv; try (destruct f); simpl in Hj.
+  all: try (flight_split Hj; try discriminate).
+  (* the moved thread itself *)
+  all: try (injection Hj' as ->; simpl; right; reflexivity).
+  all: try (injection Hj' as ->;
+            match goal with H : nth_error (thr ?s) ?i = Some (D2 ?f) |- _ =>
+              destruct (i_flight _ I f i (or_introl H)) as [D|O]; [left|right]; simpl in *; auto end; fail).
+  (* another thread: it was in flight before *)
+  all: try (apply wake_done_D2 in Hj').
+  all: try (destruct (P ltac:(eauto)) as [D|O]; [left; apply M; exact D|]).
+  all: destruct f'; simpl in *; try (rewrite ?H, ?H0, ?H1 in O; simpl in O); try discriminate; try (right; exact O).
+  all: try (left; reflexivity).
+  (* a result is handed over: the receiver is the only thread in flight *)
+  all: try (exfalso; injection O as ->;
+            match goal with
+            | H : nth_error (thr ?s) ?i = Some (D2 ?f), W : wk _ = W1W _ _ |- _ =>
+                destruct (i_flight _ I f i (or_introl H)) as [D|O'];
+                [destruct (i_nopark _ I f D) as [_ N2]; simpl in N2; rewrite W in N2; discriminate
+                |simpl in O'; rewrite W in O'; simpl in O'; congruence]
+            | H : nth_error (thr ?s) ?j = Some (D2W ?f), W : wk _ = W1 _ _ |- _ =>
+                destruct (i_flight _ I f j (or_intror H)) as [D|O'];
+                [destruct (i_nopark _ I f D) as [N1 _]; destruct (N1 _ (nth_In _ _ _ H)) as [_ N2]; discriminate
+                |simpl in O'; rewrite W in O'; simpl in O'; congruence]
+            end).
+  all: try (apply nth_map_inv in Hj' as (p0 & Hp0 & Ew); apply wake_done_D2 in Ew; subst p0; apply P; auto; fail).
+  all: left; assumption.
+Qed.
+
+Lemma poll_recv_owner s f i o r : Inv s -> nth_error (thr s) i = Some (D2 f) -> wk (getf s f) = W1W o r -> o = i.
+Proof.
+  intros I H W. destruct (i_flight _ I f i (or_introl H)) as [D|O].
+  - destruct (i_nopark _ I f D) as [_ N2]. rewrite W in N2. discriminate.
+  - rewrite W in O. simpl in O. congruence.
+Qed.
+Lemma park_recv_owner s f j o r : Inv s -> nth_error (thr s) j = Some (D2W f) -> wk (getf s f) = W1 o r -> o = j.
+Proof.
+  intros I H W. destruct (i_flight _ I f j (or_intror H)) as [D|O].
+  - destruct (i_nopark _ I f D) as [N1 _]. destruct (N1 _ (nth_In _ _ _ H)) as [_ N2].
+    simpl in N2. destruct f; discriminate.
+  - rewrite W in O. simpl in O. congruence.
+Qed.
+
+Lemma prov_pres s l s' : Inv s -> Step s l s' -> forall f, prov (getf s' f).
+Proof.
+  intros I H f'. pose proof (i_prov _ I f') as P. unfold prov in *.
+  destruct H; kinv; try (destruct f); destruct f'; simpl in *; auto.
+  all: destruct P as (P1 & P2 & P3).
+  all: try (rewrite ?H, ?H0, ?H1 in P3; simpl in P3).
+  all: try (repeat split; intros; try (destruct (P2 _ _ _ ltac:(eassumption))); simpl; eauto; fail).
+  - pose proof (poll_recv_owner s FR _ _ _ I H H0). subst o.
+    repeat split; auto; try (intros; apply (P2 _ _ _ ltac:(eassumption))). intros j0 r0 [E|Hd]; [injection E as <- <-; exact P3|eauto].
+  - pose proof (poll_recv_owner s FW _ _ _ I H H0). subst o.
+    repeat split; auto; try (intros; apply (P2 _ _ _ ltac:(eassumption))). intros j0 r0 [E|Hd]; [injection E as <- <-; exact P3|eauto].
+  - split; [exact P1|split; [exact P2|]]. destruct (wk (fr s)); simpl in *; auto.
+  - split; [exact P1|split; [exact P2|]]. destruct (wk (fw s)); simpl in *; auto.
+  - pose proof (park_recv_owner s FR _ _ _ I H0 H). subst o.
+    repeat split; auto; try (intros; apply (P2 _ _ _ ltac:(eassumption))). intros j0 r0 [E|Hd]; [injection E as <- <-; exact P3|eauto].
+  - pose proof (park_recv_owner s FW _ _ _ I H0 H). subst o.
+    repeat split; auto; try (intros; apply (P2 _ _ _ ltac:(eassumption))). intros j0 r0 [E|Hd]; [injection E as <- <-; exact P3|eauto].
+  - destruct P3 as [S1 S2]. split; [|split].
+    + intros j r0 Hd. destruct (P1 _ _ Hd) as [b0 Hb]. eauto.
+    + intros o0 b0 r0 [E|Hp]; [injection E as <- <- <-; auto|apply (P2 _ _ _ Hp)].
+    + eauto.
+  - destruct P3 as [S1 S2]. split; [|split].
+    + intros j r0 Hd. destruct (P1 _ _ Hd) as [b0 Hb]. eauto.
+    + intros o0 b0 r0 [E|Hp]; [injection E as <- <- <-; auto|apply (P2 _ _ _ Hp)].
+    + eauto.
+Qed.
+
+Lemma inv_step s l s' : Inv s -> mstep s l = Some s' -> Inv s'.
+Proof.
+  intros I H. apply step_Step in H. constructor.
+  - eapply wf_pres; eauto.
+  - eapply flag_pres; eauto.
+  - eapply nopark_pres; eauto.
+  - eapply sclosed_pres; eauto.
+  - eapply past_pres; eauto.
+  - eapply mut_pres; eauto.
+  - eapply w1_pres; eauto.
+  - eapply w1w_pres; eauto.
+  - eapply retc_pres; eauto.
+  - eapply deliv_pres; eauto.
+  - eapply flight_pres; eauto.
+  - eapply order_pres; eauto.
+  - eapply prov_pres; eauto.
+Qed.
+
+Theorem reach_inv n s : reach n s -> Inv s.
+Proof. induction 1; [apply init_inv|eapply inv_step; eauto]. Qed.
+
+(* ------------------------------------------------------------------ consequences *)
+Lemma Step_step s l s' : Step s l s' -> mstep s l = Some s'.
+Proof.
+  intros H; destruct H.
+  24: { unfold mstep, step. rewrite H. destruct r; simpl; try congruence. rewrite (H1 eq_refl). reflexivity. }
+  all: kinv; unfold mstep, step, step_k, model_conn_close, model_feeder_close.
+  all: rewrite ?H; cbn [nth_error]; rewrite ?H0, ?H1, ?H2; try reflexivity.
+  all: try (destruct (wk (getf s f)) eqn:W; try reflexivity; exfalso; first [apply H1; reflexivity | eapply H1; reflexivity]).
+  all: try (destruct f; simpl; rewrite ?H, ?H0; simpl; try reflexivity).
+  all: try (destruct sub as [|[|[|sub]]]; try lia; cbn [nth_error]; destruct sub; reflexivity).
+Qed.
+
+Lemma thr_setf s f x t : thr (setf s f x t) = t.
+Proof. destruct f; reflexivity. Qed.
+
+(* who acts in a transition *)
+Definition actor (l : label) : option nat :=
+  match l with
+  | LCall i _ _ | LPollDone i | LPollChan i | LPark i | LRet i | LCallClose i | LK i => Some i
+  | _ => None end.
+
+(* done stays closed *)
+Lemma done_stable s l s' f : mstep s l = Some s' -> done (getf s f) = true -> done (getf s' f) = true.
+Proof. intros H. apply step_Step in H. eapply done_mono; eauto. Qed.
+
+(* data: the source is called with exactly the accepted buffers, in order, each once
+   (newest first; the buffer accepted last may not have been handed to the source yet) *)
+Theorem data_in_order n s f : reach n s ->
+  map snd (sent (getf s f)) = pending_buf (wk (getf s f)) ++ sourced (getf s f).
+Proof. intros R. apply reach_inv in R. apply (i_order _ R). Qed.
+
+(* every result handed to a caller was produced by the source for a buffer this same caller sent;
+   it is neither the done-EOF nor an error caused by closing the stream *)
+Theorem result_provenance n s f j r : reach n s -> In (j, r) (delivered (getf s f)) ->
+  (exists b, In (j, b, r) (produced (getf s f)) /\ In (j, b) (sent (getf s f)) /\ In b (sourced (getf s f))) /\
+  r <> RClosed /\ r <> REof.
+Proof.
+  intros R H. apply reach_inv in R. destruct (i_prov _ R f) as (P1 & P2 & _).
+  destruct (P1 _ _ H) as [b Hb]. destruct (P2 _ _ _ Hb). split; [eauto|]. apply (i_deliv _ R _ _ _ H).
+Qed.
+
+(* no caller ever returns the error caused by closing the underlying stream *)
+Theorem no_close_error_returned n s f r : reach n s -> In (DRet f r) (thr s) -> r <> RClosed.
+Proof. intros R. apply reach_inv in R. apply (i_retc _ R). Qed.
+
+(* closing a stream happens after its feeder has been closed *)
+Theorem stream_closed_after_feeder n s f : reach n s -> sclosed (getf s f) = true -> done (getf s f) = true.
+Proof. intros R. apply reach_inv in R. apply (i_sclosed _ R). Qed.
+
+(* once done is closed nobody is parked on the feeder's channels *)
+Theorem closed_nobody_parked n s f : reach n s -> done (getf s f) = true ->
+  (forall p, In p (thr s) -> parked1 f p = false /\ parked2 f p = false) /\ is_parked_w (wk (getf s f)) = false.
+Proof. intros R. apply reach_inv in R. apply (i_nopark _ R). Qed.
+
+(* a closer that is past the two feeder closes (in particular one about to return) has closed both *)
+Theorem close_returns_closed n s i ip sub : reach n s -> nth_error (thr s) i = Some (K ip sub) -> 2 <= ip ->
+  done (getf s FR) = true /\ done (getf s FW) = true.
+Proof.
+  intros R H Hip. apply reach_inv in R. apply nth_In in H.
+  split.
+  - apply (i_past _ R FR _ _ H). destruct ip as [|ip]; [lia|]. reflexivity.
+  - apply (i_past _ R FW _ _ H). destruct ip as [|[|ip]]; try lia. reflexivity.
+Qed.
+
+(* a do that starts (or is at its first select) when done is closed: whatever it does next, it is
+   committed to EOF, and neither the worker nor the source see its buffer *)
+Theorem after_close_eof n s f i b l s' : reach n s -> done (getf s f) = true ->
+  nth_error (thr s) i = Some (D1 f b) -> actor l = Some i -> mstep s l = Some s' ->
+  nth_error (thr s') i = Some (DRet f REof) /\ getf s' f = getf s f /\ getf s' (match f with FR => FW | FW => FR end) = getf s (match f with FR => FW | FW => FR end).
+Proof.
+  intros R D H A Hs. apply reach_inv in R. apply step_Step in Hs.
+  destruct (i_nopark _ R f D) as [_ NW].
+  destruct Hs; simpl in A; try discriminate; injection A as ->; rewrite H in *;
+    match goal with E : Some _ = Some _ |- _ => inversion E; subst | _ => idtac end.
+  - simpl. split; [eapply nth_upd_same; eauto|]. destruct f0; auto.
+  - rewrite H1 in NW. discriminate.
+  - congruence.
+Qed.
+
+Theorem after_close_eof2 n s f i l s' : reach n s -> done (getf s f) = true ->
+  nth_error (thr s) i = Some (D2 f) -> actor l = Some i -> mstep s l = Some s' ->
+  nth_error (thr s') i = Some (DRet f REof).
+Proof.
+  intros R D H A Hs. apply reach_inv in R. apply step_Step in Hs.
+  destruct (i_nopark _ R f D) as [_ NW].
+  destruct Hs; simpl in A; try discriminate; injection A as ->; rewrite H in *;
+    match goal with E : Some _ = Some _ |- _ => inversion E; subst | _ => idtac end.
+  - simpl. eapply nth_upd_same; eauto.
+  - rewrite H1 in NW. discriminate.
+  - congruence.
+Qed.
+
+(* pending calls: once done is closed every thread inside do can itself take a step towards returning,
+   whatever the source does (it is never parked), in at most two own steps ... *)
+Definition rank (p : tpc) : nat := match p with D1 _ _ | D2 _ => 2 | DRet _ _ => 1 | _ => 0 end.
+
+Theorem pending_returns n s f i p : reach n s -> done (getf s f) = true ->
+  nth_error (thr s) i = Some p -> in_do f p = true ->
+  is_parked_t p = false /\
+  exists l s', actor l = Some i /\ mstep s l = Some s' /\
+               exists p', nth_error (thr s') i = Some p' /\ rank p' < rank p.
+Proof.
+  intros R D H Hin. apply reach_inv in R.
+  destruct (i_nopark _ R f D) as [NP _]. destruct (NP _ (nth_In _ _ _ H)) as [N1 N2].
+  destruct p; simpl in Hin; try discriminate; apply fid_eqb_eq in Hin; subst f0; simpl in N1, N2.
+  - split; auto. exists (LPollDone i). eexists. split; [reflexivity|]. split.
+    + apply Step_step. eapply SPollDone1; eauto.
+    + simpl. eexists. split; [eapply nth_upd_same; eauto|]. simpl. lia.
+  - destruct f; discriminate.
+  - split; auto. exists (LPollDone i). eexists. split; [reflexivity|]. split.
+    + apply Step_step. eapply SPollDone2; eauto.
+    + simpl. eexists. split; [eapply nth_upd_same; eauto|]. simpl. lia.
+  - destruct f; discriminate.
+  - split; auto. exists (LRet i). eexists. split; [reflexivity|]. split.
+    + apply Step_step. eapply SRetD; eauto.
+    + simpl. eexists. split; [eapply nth_upd_same; eauto|]. simpl. lia.
+Qed.
+
+(* ... and nobody else can move it backwards: a thread that is not parked is only moved by itself *)
+Theorem only_self_moves n s i p l s' : reach n s -> nth_error (thr s) i = Some p -> is_parked_t p = false ->
+  actor l <> Some i -> mstep s l = Some s' -> nth_error (thr s') i = Some p.
+Proof.
+  intros R H NP A Hs. apply step_Step in Hs.
+  assert (W : forall g, wake_done g p = p) by (intros g; destruct p; simpl in *; auto; discriminate).
+  destruct Hs; kinv; simpl in A; simpl; rewrite ?thr_setf;
+    try (rewrite nth_upd_other by congruence; auto; fail); auto.
+  all: try (rewrite nth_upd_other by congruence; erewrite map_nth_error by eauto; rewrite W; reflexivity).
+  all: try (destruct (Nat.eq_dec j i) as [->|Hne]; [rewrite H in *; match goal with E : Some _ = Some _ |- _ => inversion E; subst; discriminate end
+                                                  | rewrite nth_upd_other by auto; auto]).
+Qed.
+
+(* the worker after close: never parked; at a select it can return; with a buffer in hand it can
+   call the source; only inside the source does it wait for the environment *)
+Theorem worker_after_close n s f : reach n s -> done (getf s f) = true ->
+  match wk (getf s f) with
+  | W0 | W1 _ _ => exists s', mstep s (LWPollDone f) = Some s' /\ wk (getf s' f) = WX
+  | WC _ _ => exists s', mstep s (LWCall f) = Some s'
+  | WS _ _ | WX => True
+  | W0W | W1W _ _ => False
+  end.
+Proof.
+  intros R D. apply reach_inv in R. destruct (i_nopark _ R f D) as [_ NW].
+  destruct (wk (getf s f)) eqn:W; simpl in NW; try discriminate; auto.
+  - eexists. split; [apply Step_step; eapply SWPollDone0; eauto|]. destruct f; reflexivity.
+  - eexists. apply Step_step. eapply SWCall; eauto.
+  - eexists. split; [apply Step_step; eapply SWPollDone1; eauto|]. destruct f; reflexivity.
+Qed.
+
+(* fakeConn.Close: the feeder mutexes exclude, close(done) is never executed on a closed channel,
+   and a closer can always move unless it waits for a mutex that another closer holds *)
+Theorem close_mutex n s f i j a b : reach n s -> nth_error (thr s) i = Some a -> nth_error (thr s) j = Some b ->
+  holds_mu f a = true -> holds_mu f b = true -> i = j.
+Proof.
+  intros R Hi Hj Ha Hb. apply reach_inv in R. destruct (Nat.eq_dec i j); auto. exfalso.
+  pose proof (count_two (holds_mu f) _ _ _ _ _ n0 Hi Hj Ha Hb) as C. rewrite (i_mut _ R f) in C.
+  pose proof (b2n_le1 (mu (getf s f))). lia.
+Qed.
+
+Theorem closer_progress n s i ip sub : reach n s -> nth_error (thr s) i = Some (K ip sub) ->
+  (exists l s', actor l = Some i /\ mstep s l = Some s') \/
+  (sub = 0 /\ exists f, kf ip = Some f /\ mu (getf s f) = true).
+Proof.
+  intros R H. apply reach_inv in R. pose proof (i_wf _ R _ (nth_In _ _ _ H)) as (W1 & W2 & W3).
+  destruct ip as [|[|[|[|[|ip]]]]]; try lia.
+  - destruct sub as [|[|[|[|sub]]]]; try lia.
+    + destruct (mu (getf s FR)) eqn:M; [right; split; auto; exists FR; auto|].
+      left. exists (LK i). eexists. split; [reflexivity|]. apply Step_step. eapply (SKlock _ _ 0 FR); eauto.
+    + left. exists (LK i). destruct (fclosed (getf s FR)) eqn:C.
+      * eexists. split; [reflexivity|]. apply Step_step. eapply (SKnoop _ _ 0 FR); eauto.
+      * eexists. split; [reflexivity|]. apply Step_step. eapply (SKmark _ _ 0 FR); eauto.
+        rewrite (i_flag _ R FR). exact C.
+    + left. exists (LK i). eexists. split; [reflexivity|]. apply Step_step. eapply (SKunlock _ _ 0 FR); eauto.
+      pose proof (i_mut _ R FR) as M. destruct (mu (getf s FR)); auto. simpl in M.
+      pose proof (count_zero_all _ _ _ M (nth_In _ _ _ H)). discriminate.
+    + left. exists (LK i). eexists. split; [reflexivity|]. apply Step_step. eapply (SKret _ _ 0 3 FR); eauto.
+  - destruct sub as [|[|[|[|sub]]]]; try lia.
+    + destruct (mu (getf s FW)) eqn:M; [right; split; auto; exists FW; auto|].
+      left. exists (LK i). eexists. split; [reflexivity|]. apply Step_step. eapply (SKlock _ _ 1 FW); eauto.
+    + left. exists (LK i). destruct (fclosed (getf s FW)) eqn:C.
+      * eexists. split; [reflexivity|]. apply Step_step. eapply (SKnoop _ _ 1 FW); eauto.
+      * eexists. split; [reflexivity|]. apply Step_step. eapply (SKmark _ _ 1 FW); eauto.
+        rewrite (i_flag _ R FW). exact C.
+    + left. exists (LK i). eexists. split; [reflexivity|]. apply Step_step. eapply (SKunlock _ _ 1 FW); eauto.
+      pose proof (i_mut _ R FW) as M. destruct (mu (getf s FW)); auto. simpl in M.
+      pose proof (count_zero_all _ _ _ M (nth_In _ _ _ H)). discriminate.
+    + left. exists (LK i). eexists. split; [reflexivity|]. apply Step_step. eapply (SKret _ _ 1 3 FW); eauto.
+  - left. exists (LK i). eexists. split; [reflexivity|]. apply Step_step. eapply (SKstream _ _ 2 _ FR); eauto.
+  - left. exists (LK i). eexists. split; [reflexivity|]. apply Step_step. eapply (SKstream _ _ 3 _ FW); eauto.
+  - left. exists (LRet i). eexists. split; [reflexivity|]. apply Step_step.
+    rewrite (W3 ltac:(lia)) in H. eapply SRetK; eauto.
+Qed.
+
+(* the mutex a waiting closer needs is held by a closer that can move *)
+Theorem mutex_holder_moves n s f : reach n s -> mu (getf s f) = true ->
+  exists j ip sub l s', nth_error (thr s) j = Some (K ip sub) /\ holds_mu f (K ip sub) = true /\
+                        actor l = Some j /\ mstep s l = Some s'.
+Proof.
+  intros R M. pose proof R as R'. apply reach_inv in R. pose proof (i_mut _ R f) as C. rewrite M in C. simpl in C.
+  destruct (count_pos_ex (holds_mu f) (thr s) ltac:(lia)) as (j & a & Hj & Ha).
+  destruct a; simpl in Ha; try discriminate.
+  destruct (closer_progress _ _ _ _ _ R' Hj) as [(l & s' & A & S)|(E & _)].
+  - exists j, ip, sub, l, s'. repeat split; auto.
+  - subst sub. rewrite andb_false_r in Ha. discriminate.
+Qed.
+
+(* ------------------------------------------------------------------ transport to the generated programs *)
+Lemma gen_is_model : gen_conn_close = model_conn_close /\ gen_feeder_close = model_feeder_close.
+Proof. vm_compute. split; reflexivity. Qed.
+
+Lemma gen_tables : gen_do = model_do /\ gen_run = model_run /\ gen_chan_caps = model_chan_caps /\
+  gen_read_feeder = FR /\ gen_write_feeder = FW /\ gen_sources_ok = true /\ gen_workers_started = true.
+Proof. vm_compute. repeat split; reflexivity. Qed.
+
+Lemma gstep_mstep : gstep = mstep.
+Proof. unfold gstep, mstep. destruct gen_is_model as [-> ->]. reflexivity. Qed.
+
+Lemma greach_reach n s : greach n s <-> reach n s.
+Proof.
+  split; induction 1; try (constructor; fail).
+  - eapply reachS; [eassumption|]. rewrite <- gstep_mstep. eassumption.
+  - eapply greachS; [eassumption|]. rewrite gstep_mstep. eassumption.
+Qed.
+
+Lemma grun_greach n ls : forall s s', greach n s -> grun s ls = Some s' -> greach n s'.
+Proof.
+  induction ls as [|l ls IH]; unfold grun; simpl; intros s s' R H.
+  - injection H as <-. exact R.
+  - destruct (step gen_conn_close gen_feeder_close s l) as [s1|] eqn:E; [|discriminate].
+    eapply IH; [|exact H]. eapply greachS; eauto.
+Qed.
+
+Lemma g_data_in_order n s f : greach n s ->
+  map snd (sent (getf s f)) = pending_buf (wk (getf s f)) ++ sourced (getf s f).
+Proof. intros R. apply greach_reach in R. eapply data_in_order; eauto. Qed.
+
+Lemma g_result_provenance n s f j r : greach n s -> In (j, r) (delivered (getf s f)) ->
+  (exists b, In (j, b, r) (produced (getf s f)) /\ In (j, b) (sent (getf s f)) /\ In b (sourced (getf s f))) /\
+  r <> RClosed /\ r <> REof.
+Proof. intros R. apply greach_reach in R. eapply result_provenance; eauto. Qed.
+
+Lemma g_no_close_error_returned n s f r : greach n s -> In (DRet f r) (thr s) -> r <> RClosed.
+Proof. intros R. apply greach_reach in R. eapply no_close_error_returned; eauto. Qed.
+
+Lemma g_stream_closed_after_feeder n s f : greach n s -> sclosed (getf s f) = true -> done (getf s f) = true.
+Proof. intros R. apply greach_reach in R. eapply stream_closed_after_feeder; eauto. Qed.
+
+Lemma g_closed_nobody_parked n s f : greach n s -> done (getf s f) = true ->
+  (forall p, In p (thr s) -> parked1 f p = false /\ parked2 f p = false) /\ is_parked_w (wk (getf s f)) = false.
+Proof. intros R. apply greach_reach in R. eapply closed_nobody_parked; eauto. Qed.
+
+Lemma g_close_returns_closed n s i ip sub : greach n s -> nth_error (thr s) i = Some (K ip sub) -> 2 <= ip ->
+  done (getf s FR) = true /\ done (getf s FW) = true.
+Proof. intros R. apply greach_reach in R. eapply close_returns_closed; eauto. Qed.
+
+Lemma g_done_stable s l s' f : gstep s l = Some s' -> done (getf s f) = true -> done (getf s' f) = true.
+Proof. rewrite gstep_mstep. apply done_stable. Qed.
+
+Lemma g_after_close_eof n s f i b l s' : greach n s -> done (getf s f) = true ->
+  nth_error (thr s) i = Some (D1 f b) -> actor l = Some i -> gstep s l = Some s' ->
+  nth_error (thr s') i = Some (DRet f REof) /\ getf s' f = getf s f /\
+  getf s' (match f with FR => FW | FW => FR end) = getf s (match f with FR => FW | FW => FR end).
+Proof. intros R. apply greach_reach in R. rewrite gstep_mstep. eapply after_close_eof; eauto. Qed.
+
+Lemma g_after_close_eof2 n s f i l s' : greach n s -> done (getf s f) = true ->
+  nth_error (thr s) i = Some (D2 f) -> actor l = Some i -> gstep s l = Some s' ->
+  nth_error (thr s') i = Some (DRet f REof).
+Proof. intros R. apply greach_reach in R. rewrite gstep_mstep. eapply after_close_eof2; eauto. Qed.
+
+Lemma g_pending_returns n s f i p : greach n s -> done (getf s f) = true ->
+  nth_error (thr s) i = Some p -> in_do f p = true ->
+  is_parked_t p = false /\
+  exists l s', actor l = Some i /\ gstep s l = Some s' /\
+               exists p', nth_error (thr s') i = Some p' /\ rank p' < rank p.
+Proof. intros R. apply greach_reach in R. rewrite gstep_mstep. eapply pending_returns; eauto. Qed.
+
+Lemma g_only_self_moves n s i p l s' : greach n s -> nth_error (thr s) i = Some p -> is_parked_t p = false ->
+  actor l <> Some i -> gstep s l = Some s' -> nth_error (thr s') i = Some p.
+Proof. intros R. apply greach_reach in R. rewrite gstep_mstep. eapply only_self_moves; eauto. Qed.
+
+Lemma g_worker_after_close n s f : greach n s -> done (getf s f) = true ->
+  match wk (getf s f) with
+  | W0 | W1 _ _ => exists s', gstep s (LWPollDone f) = Some s' /\ wk (getf s' f) = WX
+  | WC _ _ => exists s', gstep s (LWCall f) = Some s'
+  | WS _ _ | WX => True
+  | W0W | W1W _ _ => False
+  end.
+Proof. intros R. apply greach_reach in R. rewrite gstep_mstep. eapply worker_after_close; eauto. Qed.
+
+Lemma g_close_mutex n s f i j a b : greach n s -> nth_error (thr s) i = Some a -> nth_error (thr s) j = Some b ->
+  holds_mu f a = true -> holds_mu f b = true -> i = j.
+Proof. intros R. apply greach_reach in R. eapply close_mutex; eauto. Qed.
+
+Lemma g_closer_progress n s i ip sub : greach n s -> nth_error (thr s) i = Some (K ip sub) ->
+  (exists l s', actor l = Some i /\ gstep s l = Some s') \/
+  (sub = 0 /\ exists f, kf ip = Some f /\ mu (getf s f) = true).
+Proof. intros R. apply greach_reach in R. rewrite gstep_mstep. eapply closer_progress; eauto. Qed.
+
+Lemma g_mutex_holder_moves n s f : greach n s -> mu (getf s f) = true ->
+  exists j ip sub l s', nth_error (thr s) j = Some (K ip sub) /\ holds_mu f (K ip sub) = true /\
+                        actor l = Some j /\ gstep s l = Some s'.
+Proof. intros R. apply greach_reach in R. rewrite gstep_mstep. eapply mutex_holder_moves; eauto. Qed.
